@@ -180,15 +180,15 @@ def check_case(rec, case):
     R = case['ref']
     n = case['n']
     if kind in ('dfa', 'nfa'):
-        words = list(fa.words_upto(R[1], n))
+        words = list(case['words']) if case.get('words') else list(fa.words_upto(R[1], n))
         L = fa.language_upto(R, n)
-        rec.note_case(case, case['cls'], 0 < len(L) < len(words))
+        rec.note_case(case, case['cls'], 0 < len(L) < len(words) or bool(case.get('words')))
         size = len(R[0]) + len(R[2])
         # the same object asked again after an in-place change (round 1): the run must be a run of the automaton as it is NOW
         X = adapt.build_dfa(R, scramble=case.get('scr')) if kind == 'dfa' else adapt.build_nfa(R, case.get('eps', ''), case.get('container', 'defaultdict_set'), scramble=case.get('scr'))
         for round_ in (0, 1):
             if round_ == 1:
-                if len(R[0]) < 2 or not common.mutate_in_place(X, repr(R)):
+                if len(R[0]) < 2 or case.get('requery') is False or not common.mutate_in_place(X, repr(R)):
                     break
                 R = adapt.dfa_ref(X) if kind == 'dfa' else adapt.nfa_ref(X)
                 words = list(fa.words_upto(R[1], min(n, 4)))
@@ -302,6 +302,14 @@ def gen_cases(rec, rng, tier):
         if cls.startswith('eps_'):
             for _ in range(2):
                 yield {'kind': 'nfa', 'cls': cls + '_renamed', 'ref': fag.random_renaming(rng, R), 'n': 4, 'eps': '', 'container': rng.choice(adapt.NFA_KINDS)}
+    # very long epsilon runs (an epsilon path longer than the interpreter's default recursion limit) and larger automata
+    if rec.shard % 4 == 0:
+        for k in ((1100, 2500) if thorough else (1100,)):
+            yield {'kind': 'nfa', 'cls': 'eps_chain_beyond_recursion_limit', 'ref': fag.eps_chain(k, accept_end=True), 'n': 1, 'words': ['a'], 'requery': False, 'eps': '', 'container': 'defaultdict_set'}
+    if rec.shard % 4 == 1:
+        for nq in (9, 12, 17, 33):
+            yield {'kind': 'dfa', 'cls': 'large_dfa', 'ref': fag.random_connected_dfa(rng, nq, 2, p_final=0.3), 'n': 5}
+            yield {'kind': 'nfa', 'cls': 'large_nfa', 'ref': fag.random_nfa(rng, nq, 2, eps_density=0.1, density=0.1), 'n': 4, 'eps': '', 'container': 'defaultdict_set'}
     # the 5-state witness shape from the design notes: x <-> y epsilon cycles reachable from the start
     Rw = fa.make(['s', 'x', 'y', 'z', 'f'], 'a', [('s', None, 'x'), ('x', None, 'y'), ('y', None, 'x'), ('y', None, 'z'), ('z', None, 'y'), ('z', None, 'f'), ('f', 'a', 'f'), ('x', 'a', 'z')], 's', ['f'])
     yield {'kind': 'nfa', 'cls': 'eps_two_cycles', 'ref': Rw, 'n': 3, 'eps': ''}
